@@ -12,6 +12,8 @@ EXTENDS SolversDef
 CONSTANTS Topos, SlackKinds, SlackPos, PVs, XSs, TrafoKinds, Loads,      \* single-island classes: full product
           PVsA, TrafoKindsA, LoadsA,                                      \* first island of a two-island class
           Topos2, SlackKinds2, SlackPos2, PV2s,                           \* second island: reduced family
+          TrafoKinds2,                                                    \* transformer kinds of a second island with
+                                                                          \* transformers (behind a plain first island)
           MaxIslands
 VARIABLES net,    \* [c: class, cva: calculate_voltage_angles, res: result tables of a previous run exist]
           step    \* [kind |-> "fresh"] | [kind |-> "classify", feat] | [kind |-> "solve", s, res0 (= net.res before), plan]
@@ -20,7 +22,15 @@ vars == <<net, step>>
 Island1 == {d \in [topo : Topos, slack : SlackKinds, spos : SlackPos, pv : PVs, xs : XSs, trafo : TrafoKinds, load : Loads] :
               ~(d.xs /\ d.pv)}                       \* the extra ext_grid and the PV gen would share template bus 2
 IslandA == [topo : Topos, slack : SlackKinds, spos : SlackPos, pv : PVsA, xs : {FALSE}, trafo : TrafoKindsA, load : LoadsA]
+\* second island: without transformers behind every first island; with (phase-shifting) transformers -- the island whose
+\* ppci bus numbers are NOT 0..n-1 -- behind the first islands that have an ext_grid slack and no PV gen / transformer
+\* (their topology and slack position, i.e. the numbering of roots and loops before the second island, stay free)
+PlainA(d) == d.slack = "ext_grid" /\ ~d.pv /\ d.trafo = "none"
 IslandB(d) == [topo : Topos2, slack : SlackKinds2, spos : SlackPos2, pv : PV2s, xs : {FALSE}, trafo : {"none"}, load : {d.load}]
+              \cup (IF PlainA(d)
+                    THEN [topo : Topos2, slack : SlackKinds2, spos : SlackPos2, pv : {FALSE}, xs : {FALSE},
+                          trafo : TrafoKinds2 \ {"none"}, load : {d.load}]
+                    ELSE {})
 Classes == {<<d>> : d \in Island1}
            \cup (IF MaxIslands >= 2 THEN UNION {{<<d, e>> : e \in IslandB(d)} : d \in IslandA} ELSE {})
 
